@@ -52,7 +52,7 @@ EXPLICIT = {
     ("utils/message.rs", "map_message_to_scalar_as_hash"): "Zk.Bbs.mapMessageToScalarAsHash",
     ("utils/message.rs", "messages_to_scalar"): "Zk.Bbs.messagesToScalar",
     ("utils/message.rs", "messages_to_scalars"): "Zk.Bbs.messagesToScalar",
-    ("utils/message.rs", "map_message_to_integer_as_hash"): "harness-side (attributes are given to the model as integers)",
+    ("utils/message.rs", "map_message_to_integer_as_hash"): "Zk.Cl.mapMessageToIntegerAsHash",
     ("utils/message.rs", "to_bytes_be"): "scalar encoding",
     ("utils/message.rs", "from_bytes_be"): "scalar decoding",
     ("utils/random.rs", "random_bits"): "Zk.Cl.randomBits (tape contract: exact bit length)",
@@ -71,7 +71,7 @@ EXPLICIT = {
     ("cl03/commitment.rs", "commit_with_commitment_pk"): "Zk.Cl.commitWithCpk",
     ("cl03/commitment.rs", "commit_v"): "Zk.Cl.commitV",
     ("cl03/commitment.rs", "extend_commitment_with_pk"): "Zk.Cl.extendCommitmentWithPk",
-    ("cl03/commitment.rs", "extend_commitment_with_commitment_pk"): "EXERCISED",
+    ("cl03/commitment.rs", "extend_commitment_with_commitment_pk"): "Zk.Cl.extendCommitmentWithCpk",
     ("cl03/sigma_protocols.rs", "nisp2sec_generate_proof"): "Zk.Cl.nisp2secGen",
     ("cl03/sigma_protocols.rs", "nisp2sec_verify_proof"): "Zk.Cl.nisp2secVerify",
     ("cl03/sigma_protocols.rs", "nispMultiSecrets_generate_proof"): "Zk.Cl.nispMultiSecretsGen",
